@@ -3,7 +3,8 @@ import json, random
 
 PTY = {"u8": "u8", "string": "String", "ru8": "&u8", "rru8": "&&u8", "str": "&str", "mu8": "&mut u8", "mvec": "&mut Vec<u8>", "mlvec": "&'a mut Vec<u8>",
        "slice": "&[u8]", "vec": "Vec<u8>", "gen": "T", "optstr": "Option<&str>", "pair": "(u8, u8)"}
-RTY = {"u32": "u32", "string": "String", "opt": "Option<u32>", "ref": "&u32"}
+RTY = {"u32": "u32", "string": "String", "opt": "Option<u32>", "ref": "&u32", "sref": "&'s u32", "optref": "Option<&u32>", "static": "&'static str",
+       "assoc": "Self::Out", "pref": "&'a str"}
 RECV = {"ref": "&self", "mut": "&mut self", "own": "self", "rc": "self: std::rc::Rc<Self>", "arc": "self: std::sync::Arc<Self>", "pin": "self: std::pin::Pin<&mut Self>"}
 
 
@@ -50,22 +51,26 @@ def render(cases):
         fwd = c["fwd"]
         params, recv, ret, asy, api = sh["params"], sh["recv"], sh["ret"], sh["async"], sh["api"]
         generic = "gen" in params
-        gl = ["'a"] if "mlvec" in params else []
+        gl = (["'a"] if ("mlvec" in params or ret == "pref") else []) + (["'s"] if ret == "sref" else [])
         gt = ["T: Show + Send + 'static"] if generic else []
         gdecl = ("<" + ", ".join(gl + gt) + ">") if (gl or gt) else ""
-        plist = "".join(", a%d: %s" % (i + 1, PTY[k]) for i, k in enumerate(params))
+        plist = "".join(", a%d: %s" % (i + 1, "&'a str" if (ret == "pref" and i == 0) else PTY[k]) for i, k in enumerate(params))
         rty = RTY[ret]
+        recv_src = "&'s self" if ret == "sref" else RECV[recv]
+        assoc_attr = ", type Out = u32;" if ret == "assoc" else ""
+        assoc_item = "type Out; " if ret == "assoc" else ""
         if asy == "asyncfn":
-            sig = "async fn f%d%s(%s%s) -> %s;" % (n, gdecl, RECV[recv], plist, rty)
+            sig = "async fn f%d%s(%s%s) -> %s;" % (n, gdecl, recv_src, plist, rty)
         elif asy == "implfuture":
-            sig = "fn f%d%s(%s%s) -> impl Future<Output = %s>;" % (n, gdecl, RECV[recv], plist, rty)
+            sig = "fn f%d%s(%s%s) -> impl Future<Output = %s>;" % (n, gdecl, recv_src, plist, rty)
         else:
-            sig = "fn f%d%s(%s%s) -> %s;" % (n, gdecl, RECV[recv], plist, rty)
+            sig = "fn f%d%s(%s%s) -> %s;" % (n, gdecl, recv_src, plist, rty)
         names = ", ".join("a%d" % (i + 1) for i in range(len(params)))
         shows = ", ".join("sh(&a%d)" % (i + 1) for i in range(len(params)))      # answer / real function: owns the arguments
         mshows = ", ".join("sh(a%d)" % (i + 1) for i in range(len(params)))      # matcher: bindings are references to them
         writes = "".join(("*a%d += 100; " % (i + 1)) if k == "mu8" else ("a%d.push(%d); " % (i + 1, i + 101)) if k in ("mvec", "mlvec") else "" for i, k in enumerate(params))
-        retexpr = {"u32": "4242u32", "string": 'String::from("ret")', "opt": "Some(7u32)", "ref": None}[ret]
+        retexpr = {"u32": "4242u32", "string": 'String::from("ret")', "opt": "Some(7u32)", "ref": None, "sref": None, "optref": None,
+                   "static": '"lit"', "assoc": "4242u32", "pref": "a1"}[ret]
         if api == "hidden":
             L.append("#[unimock(unmock_with=[real_%d])]" % n)
             L.append("trait Tr%d { %s }" % (n, sig))
@@ -73,12 +78,12 @@ def render(cases):
             build = "Unimock::new_partial(())"
         else:
             if api == "module":
-                L.append("#[unimock(api=M%d)]" % n)
+                L.append("#[unimock(api=M%d%s)]" % (n, assoc_attr))
                 mf = "M%d::f%d" % (n, n)
             else:
-                L.append("#[unimock(api=[F%d])]" % n)
+                L.append("#[unimock(api=[F%d]%s)]" % (n, assoc_attr))
                 mf = "F%d" % n
-            L.append("trait Tr%d { %s }" % (n, sig))
+            L.append("%strait Tr%d { %s%s }" % ("pub " if ret == "assoc" else "", n, assoc_item, sig))
             if generic:
                 mf += ".with_types::<u16>()"
             if len(params) == 0:
@@ -86,8 +91,8 @@ def render(cases):
                 mt = "&|m| { m.func(|_, _| rec_m(vec![])); }"
             else:
                 mt = "matching!((%s) if rec_m(vec![%s]))" % (names, mshows)
-            uparam = "u" if (ret == "ref" or recv == "own") else "_u"
-            rexpr = "Unimock::make_ref(u, 77u32)" if ret == "ref" else retexpr
+            uparam = "u" if (ret in ("ref", "sref", "optref") or recv == "own") else "_u"
+            rexpr = "Unimock::make_ref(u, 77u32)" if ret in ("ref", "sref") else "Some(Unimock::make_ref(u, 77u32))" if ret == "optref" else retexpr
             if recv == "own" and asy == "none":
                 # the receiver handed to the answer is the caller's own instance: an original accepts verify(), a clone does not
                 writes = writes + "u.verify(); "
